@@ -167,7 +167,7 @@ fn ice_body(mut c: Camp) -> Pin<Box<dyn Future<Output = (Camp, End)> + Send>> {
         if !ice_probe(&sock, target, 1, false, &creds).await {
             return (c, End::Inconclusive(format!("baseline Binding request unanswered in ICE state {state}")));
         }
-        c.heap_base = alloc_count::tag_net_bytes(c.id);
+        c.rebaseline();
         let mut seeds = pure::stun_seeds();
         // authentic requests among the seeds: their mutants stay close to what passes the
         // USERNAME / MESSAGE-INTEGRITY gate, and unmutated copies go through it
@@ -177,8 +177,60 @@ fn ice_body(mut c: Camp) -> Pin<Box<dyn Future<Output = (Camp, End)> + Send>> {
         seeds.extend(pure::record_seeds().into_iter().take(3));
         let mut probes = 0u64;
         let mut end = End::Live;
+        // structured flood: thousands of *distinct* transactions from many source ports –
+        // authentic Binding requests (each new source is a peer-reflexive candidate for the
+        // agent), unauthenticated requests, and success responses nobody asked for
+        let flood = c.scenario["flood"].as_str() == Some("transactions");
+        let mut extra_socks: Vec<UdpSocket> = vec![];
+        if flood {
+            for _ in 0..64 {
+                if let Ok(s) = UdpSocket::bind("127.0.0.1:0").await { extra_socks.push(s); }
+            }
+            c.count("live.ice.flood_source_ports", extra_socks.len() as u64);
+        }
         for i in 0..n {
-            let d = hostile_udp(&seeds, &mut c.rng);
+            let d = if flood {
+                let mut tid = [0u8; 12];
+                tid[..8].copy_from_slice(&(i as u64).to_be_bytes());
+                tid[8..].copy_from_slice(b"c07f");
+                match i % 4 {
+                    0 | 1 => stun_binding_request(tid, i % 8 == 0, &creds),
+                    2 => StunMessage::binding_request(tid, None).encode(None, true).unwrap_or_default(),
+                    _ => {
+                        let mut v = stun_binding_request(tid, false, &creds);
+                        if v.len() > 1 { v[0] = 0x01; v[1] = 0x01; }
+                        v
+                    }
+                }
+            } else {
+                hostile_udp(&seeds, &mut c.rng)
+            };
+            if flood && !extra_socks.is_empty() {
+                let k = i % (extra_socks.len() + 1);
+                if k < extra_socks.len() {
+                    c.fed_quiet(&d, i % 64 == 0);
+                    let _ = extra_socks[k].send_to(&d, target).await;
+                    if i % 32 == 31 {
+                        tokio::task::yield_now().await;
+                        // do not let the answers pile up in the kernel
+                        let mut buf = [0u8; 2048];
+                        for s in &extra_socks { while s.try_recv_from(&mut buf).is_ok() {} }
+                    }
+                    if i % 100 == 99 {
+                        probes += 1;
+                        if !ice_probe(&sock, target, probes + 1, false, &creds).await {
+                            let st = format!("{:?}", ice.state());
+                            end = if !(st.contains("Failed") || st.contains("Closed")) && c.canary_ok(Duration::from_millis(200)).await {
+                                End::Unresponsive(format!("Binding request unanswered 5x after {} flood datagrams, ICE state {st}", i + 1))
+                            } else {
+                                End::CleanEnd(format!("ICE state {st}"))
+                            };
+                            break;
+                        }
+                    }
+                    continue;
+                }
+            }
             c.fed(&d);
             let _ = sock.send_to(&d, target).await;
             if i % 32 == 31 {
@@ -269,19 +321,59 @@ fn rtp_body(mut c: Camp) -> Pin<Box<dyn Future<Output = (Camp, End)> + Send>> {
         let mut seq = 1u16;
         let mut probes = 0u64;
         let mut end = End::Live;
-        c.heap_base = alloc_count::tag_net_bytes(c.id);
+        c.rebaseline();
+        // structured flood: every packet a new SSRC (valid RTP, all payload types), RTCP compound
+        // packets whose report blocks / BYE lists / feedback name ever new SSRCs
+        let flood = c.scenario["flood"].as_str() == Some("ssrcs");
         for i in 0..n {
-            let mut d = match c.rng.below(8) {
-                0 => mutators::plain_random(&seeds, &mut c.rng),
-                _ => mutators::random_mutant(&seeds, &mut c.rng),
+            let mut d = if flood {
+                let ssrc = 0x1000_0000u32.wrapping_add(i as u32 * 7);
+                match i % 8 {
+                    6 => {
+                        // SR with 31 report blocks + BYE with 31 sources
+                        let mut v = vec![0x80 | 31, 200];
+                        v.extend_from_slice(&((6 + 31 * 6) as u16).to_be_bytes());
+                        v.extend_from_slice(&ssrc.to_be_bytes());
+                        v.extend_from_slice(&[0u8; 20]);
+                        for k in 0..31u32 {
+                            v.extend_from_slice(&ssrc.wrapping_add(1000 + k).to_be_bytes());
+                            v.extend_from_slice(&[0u8; 20]);
+                        }
+                        v.extend_from_slice(&[0x80 | 31, 203]);
+                        v.extend_from_slice(&31u16.to_be_bytes());
+                        for k in 0..31u32 { v.extend_from_slice(&ssrc.wrapping_add(2000 + k).to_be_bytes()); }
+                        v
+                    }
+                    7 => {
+                        // generic NACK with 200 FCI entries for a new media SSRC
+                        let mut v = vec![0x80 | 1, 205];
+                        v.extend_from_slice(&((2 + 200) as u16).to_be_bytes());
+                        v.extend_from_slice(&ssrc.to_be_bytes());
+                        v.extend_from_slice(&ssrc.wrapping_add(1).to_be_bytes());
+                        for k in 0..200u16 { v.extend_from_slice(&k.wrapping_mul(17).to_be_bytes()); v.extend_from_slice(&0xffffu16.to_be_bytes()); }
+                        v
+                    }
+                    _ => {
+                        let mut h = RtpHeader::new((i % 128) as u8, c.rng.u16(), c.rng.u32(), ssrc);
+                        h.marker = i % 3 == 0;
+                        RtpPacket::new(h, vec![0x5a; 1 + i % 40]).marshal().unwrap_or_default()
+                    }
+                }
+            } else {
+                match c.rng.below(8) {
+                    0 => mutators::plain_random(&seeds, &mut c.rng),
+                    _ => mutators::random_mutant(&seeds, &mut c.rng),
+                }
             };
             d.truncate(65000);
             // with SRTP: half of the inputs are authentic (protected with the right key) so that
             // the malformed plaintext gets past authentication, like a genuine-but-buggy peer
-            if srtp_on && c.rng.bool() {
+            if srtp_on && (flood || c.rng.bool()) {
+                // (the sending session is the harness's tool: its per-SSRC table is not the
+                // receiving endpoint's memory)
                 if let (Some(tx), Ok(p)) = (tx_sess.as_mut(), RtpPacket::parse(&d)) {
                     let mut out = vec![0u8; tx.protected_rtp_len(&p)];
-                    if tx.protect_rtp(&p, &mut out).is_ok() {
+                    if alloc_count::untagged(|| tx.protect_rtp(&p, &mut out)).is_ok() {
                         d = out;
                     }
                 }
@@ -373,7 +465,7 @@ fn pc_body(mut c: Camp) -> Pin<Box<dyn Future<Output = (Camp, End)> + Send>> {
         seeds.push(pure::SDP_T38.as_bytes().to_vec());
         let specials = pure::sdp_specials();
         let cand_seeds = pure::sdp_attr_seeds();
-        c.heap_base = alloc_count::tag_net_bytes(c.id);
+        c.rebaseline();
         let mut accepted = 0u64;
         let mut rejected = 0u64;
         let mut timeouts = 0u64;
@@ -491,6 +583,13 @@ pub fn more_specs(args: &Args, push: &mut impl FnMut(&'static str, Body, Value))
     let nr = if q { 20000 } else { 150000 };
     for st in ["plain", "bridge", "srtp", "srtp_gcm"] {
         push("rtp_transport", rtp_body, json!({"state":st,"n":nr}));
+    }
+    let nf = if q { 4000 } else { 20000 };
+    for st in ["plain", "srtp"] {
+        push("rtp_transport", rtp_body, json!({"state":st,"n":nf,"flood":"ssrcs"}));
+    }
+    for st in ["checking", "connected"] {
+        push("ice_udp", ice_body, json!({"state":st,"n":nf,"flood":"transactions"}));
     }
     let np = if q { 600 } else { 4000 };
     for (mode, st) in [("webrtc", "stable"), ("webrtc", "have_local_offer"), ("webrtc", "negotiated"), ("rtp", "stable"), ("rtp", "negotiated"), ("srtp", "stable"), ("srtp", "have_local_offer")] {
